@@ -69,6 +69,8 @@ def run_one(mod, case: dict, timeout: float) -> dict:
     signal.signal(signal.SIGALRM, _alarm)
     signal.setitimer(signal.ITIMER_REAL, timeout)
     t0 = time.time()
+    if os.environ.get("VERIF_DEBUG"):
+        faulthandler.dump_traceback_later(max(1.0, timeout - 3), exit=False)
     try:
         res = mod.run_case(case)
     except CaseTimeout:
@@ -79,6 +81,8 @@ def run_one(mod, case: dict, timeout: float) -> dict:
                "digest": "error"}
     finally:
         signal.setitimer(signal.ITIMER_REAL, 0)
+        if os.environ.get("VERIF_DEBUG"):
+            faulthandler.cancel_dump_traceback_later()
     res.setdefault("stats", {})
     res.setdefault("faults", {})
     res.setdefault("probes", {})
@@ -99,6 +103,9 @@ def _worker(mod_id: str, seed: int, tier: str, w: int, nw: int, deadline: float,
         while i < max_cases and time.time() < deadline:
             case = case_for(mod, seed, tier, i)
             res = run_one(mod, case, case_timeout)
+            if os.environ.get("VERIF_DEBUG") and res.get("wall", 0) > 3:
+                print(f"[debug] slow case {i}: {res['wall']:.1f}s "
+                      f"{res.get('vclass')}", file=sys.stderr)
             fold(agg, case, res)
             i += nw
     finally:
@@ -323,6 +330,8 @@ def cmd_check(mod_id: str, tier: str) -> int:
     shutil.rmtree(tmp, ignore_errors=True)
     agg = merge(aggs) if aggs else new_agg()
     sim_wall = time.time() - t0
+    if os.environ.get("VERIF_DEBUG"):
+        print(f"[debug] workers done at {sim_wall:.1f}s", file=sys.stderr)
 
     for he in agg["harness_errors"][:3]:
         harness_problems.append("case error: " + he["error"][-1500:])
@@ -352,6 +361,9 @@ def cmd_check(mod_id: str, tier: str) -> int:
     for sig, vio in list(fresh.items())[:5]:
         small = minimise(mod, vio, mbudget / max(1, min(5, len(fresh))),
                          b["case_timeout"])
+        if os.environ.get("VERIF_DEBUG"):
+            print(f"[debug] minimised one at {time.time()-t0:.1f}s",
+                  file=sys.stderr)
         path = write_replay(prop, small, seed)
         replay_paths.append(path)
         out_lines.append(f"VIOLATION property={prop} replay={path}")
